@@ -93,7 +93,7 @@ macro_rules! gate_shape {
     };
 }
 
-//@h props=C15,C03,C12 tier=quick timeout=1200 role=ack-gate unwindset=FrameQueue17acknowledge_group.0:34
+//@h props=C15,C03,C12 tier=quick timeout=1200 role=ack-gate unwindset=FrameQueue17acknowledge_group.0:34 cbmc=--max-field-sensitivity-array-size+512
 //@fn FrameQueue::{push, acknowledge_group}, FrameLog::{get_frame, get_frame_mut}, FeedbackGen::{notify_ack, put_ack_data}, ReorderBuffer::put, PendingPacket::acknowledge_fragment
 //@bound log of 2 frames at base 2^32-1 (second id wraps); ack group shape: base = log base, bitfield 0b11; group nonce, frame nonces, sizes, send times, RTT any
 gate_shape!(o15_1_gate_both_frames, 0xFFFF_FFFF, 0, 0b11, inside, true, true);
@@ -169,14 +169,14 @@ fn replay_shape(pre_acked0: bool, pre_acked1: bool) {
     std::mem::forget(fq);
 }
 
-//@h props=C15,C14 tier=quick timeout=1500 role=ack-replay unwindset=FrameQueue17acknowledge_group.0:34
+//@h props=C15,C14 tier=quick timeout=1500 role=ack-replay unwindset=FrameQueue17acknowledge_group.0:34 cbmc=--max-field-sensitivity-array-size+512
 //@fn FrameQueue::{push, acknowledge_group}, FeedbackGen::{put_ack_data, notify_ack}
 //@bound log of 2 frames at base 2^32-1, BOTH already acknowledged by an earlier group (feedback consumed); the same genuine group arrives again
 #[kani::proof]
 #[kani::unwind(6)]
 fn o15_2_replayed_ack_has_no_effect() { replay_shape(true, true); }
 
-//@h props=C15,C14 tier=quick timeout=1500 role=ack-overlap unwindset=FrameQueue17acknowledge_group.0:34
+//@h props=C15,C14 tier=quick timeout=1500 role=ack-overlap unwindset=FrameQueue17acknowledge_group.0:34 cbmc=--max-field-sensitivity-array-size+512
 //@fn FrameQueue::{push, acknowledge_group}, FeedbackGen::{put_ack_data, notify_ack}
 //@bound log of 2 frames sent at any t0 <= t1; the SECOND (later) frame already acknowledged; a genuine group covering both arrives (one fresh bit, one repeated bit)
 #[kani::proof]
@@ -200,7 +200,7 @@ fn o15_1_gate_clear_bit_on_unknown_frame() {
     kani::cover!(!genuine, "rejected");
 }
 
-//@h props=C03,C11,C15 tier=quick timeout=1200 role=transfer-window
+//@h props=C03,C11,C15 tier=quick timeout=1200 role=transfer-window also_quick=C15
 //@fn FrameQueue::{push, can_push, advance_transfer_window, can_advance_transfer_window, cull_log_entries}, FeedbackGen::notify_advancement, ReorderBuffer::advance, FrameLog::drain
 //@bound window 4 / tail 4 at base 2^32-2, FOUR frames pushed (window full); then the peer's frame window base = ANY u32
 #[kani::proof]
